@@ -66,7 +66,7 @@ class L1:
     def alive(self) -> bool:
         return not self.thread.finished
 
-    def stop(self, wait: float = 5.0) -> bool:
+    def stop(self, wait: float = 30.0) -> bool:
         """Ask the executor to stop the way Acceptor._stop_local does."""
         if self.thread.finished:
             return True
